@@ -110,6 +110,57 @@ def replay_guard(pattern, expect_valid):
     return v2version.is_valid_week_pattern(pattern) == expect_valid
 
 
+def bump_pair(pattern, o1, o2):
+    """Render the version of date d1, bump it with date d2 (earlier, equal or later): through the real incr the result
+    is read back by its own pattern and never lower than the input (a version from the future keeps its calendar)."""
+    from bumpver import v2version, version
+
+    d1, d2 = dt.date.fromordinal(o1), dt.date.fromordinal(o2)
+    full = pattern + ".BUILD"
+    base = v2version.parse_field_values_to_vinfo({"bid": "1001"})
+    v1 = v2version.format_version(base._replace(**v2version.cal_info(d1)._asdict()), full)
+    if not v2version.is_valid(v1, full):
+        return None  # rendered but not accepted (week 53): that is C02's known finding, not a question of order
+    try:
+        v2 = v2version.incr(v1, raw_pattern=full, maybe_date=d2)
+    except Exception as e:  # noqa
+        return f"{full}: incr({v1!r}, date {d2}) raised {type(e).__name__}: {e}"
+    if v2 is None:
+        return f"{full}: incr({v1!r}, date {d2}) gives no version"
+    if not v2version.is_valid(v2, full):
+        return None  # see above
+    if not version.parse_version(v2) > version.parse_version(v1):
+        return f"{full}: version of {d1} is {v1!r}; bumped on {d2} it becomes {v2!r}, which is not greater"
+    i1, i2 = v2version.parse_version_info(v1, full), v2version.parse_version_info(v2, full)
+    if d2 >= d1 and v2version._is_cal_gt(i1, v2version._ver_to_cal_info(i2)):
+        return f"{full}: calendar part of {v2!r} (bumped on {d2}) is lower than that of {v1!r} ({d1})"
+    return None
+
+
+def _pairs_chunk(args):
+    import random
+
+    seed, n, pats = args
+    rng = random.Random(seed)
+    lo, hi = dt.date(2001, 1, 1).toordinal(), dt.date(2099, 12, 31).toordinal()
+    specials = [dt.date(y, m, d).toordinal() for y in (2004, 2009, 2010, 2020, 2021, 2026) for (m, d) in ((1, 1), (1, 3), (1, 4), (12, 28), (12, 31), (3, 1))]
+    bad, cnt = None, 0
+    for _ in range(n):
+        p = rng.choice(pats)
+        o1 = rng.choice(specials) if rng.random() < 0.3 else rng.randint(lo, hi)
+        o2 = o1 + rng.choice([-800, -366, -40, -7, -1, 0, 1, 6, 30, 365, 900]) if rng.random() < 0.6 else rng.randint(lo, hi)
+        o2 = min(max(o2, lo), hi)
+        cnt += 1
+        r = bump_pair(p, o1, o2)
+        if r is not None and bad is None:
+            bad = (p, o1, o2, r)
+    return cnt, bad
+
+
+def replay_bump_pair(pattern, o1, o2):
+    return bump_pair(pattern, o1, o2) is None
+
+
 def run(tier="quick", seed=0):
     out = []
     t0 = time.time()
@@ -174,6 +225,24 @@ def run(tier="quick", seed=0):
             sample=pats[:5],
             witness=[dict(pattern=k, pair=v) for k, v in sorted(bad.items())[:3]],
             python_replay=(dict(module="checks.c14", function="replay_rendered", args=[first[0][0], first[0][1][0], first[0][1][1]]) if first else None),
+        )
+    )
+    # 4b. B: bumping the version of one date on another date (earlier, equal, later) through the real incr
+    per = 400 if tier == "quick" else 20000
+    with mp.get_context("fork").Pool(16) as pool:
+        chunks = pool.map(_pairs_chunk, [(seed * 1000 + i, per, pats) for i in range(16)])
+    badp = [c[1] for c in chunks if c[1] is not None]
+    out.append(
+        dict(
+            name="C14.bump_on_any_date.result_is_greater_and_calendar_never_lower",
+            kind="B",
+            verdict="held" if not badp else "refuted",
+            cases=sum(c[0] for c in chunks),
+            distinct=sum(c[0] for c in chunks),
+            bound=f"{16 * per} seeded (pattern, date of the version, date of the bump) triples: {len(pats)} coherent patterns + BUILD, dates 2001..2099 with New-Year / ISO-year boundary days, bump dates before, on and after the version's date",
+            witness=[dict(pattern=b[0], version_date=dt.date.fromordinal(b[1]).isoformat(), bump_date=dt.date.fromordinal(b[2]).isoformat(), problem=b[3]) for b in badp[:3]],
+            observed=badp[0][3] if badp else None,
+            python_replay=(dict(module="checks.c14", function="replay_bump_pair", args=list(badp[0][:3])) if badp else None),
         )
     )
     # 5. the guard classifies the patterns as the statement says
